@@ -179,10 +179,12 @@ def run_case(draw):
     grid = draw(st.sampled_from(["uniform", "nonuniform"]))
     gs = draw(st.integers(0, 2 ** 31))
     tol = draw(st.sampled_from([1e-6, 1e-8, 1e-10]))
+    # rtol != atol in half of the cases (a swap of the two in one copy is invisible when they are equal)
+    atol = draw(st.sampled_from([tol, tol, tol * 1e-3, tol * 1e-2, tol * 1e2]))
     ev = draw(st.sampled_from(["off", "mix"]))
     direction = draw(st.sampled_from([-1, 0, 1]))
     xtol = draw(st.sampled_from([1e-12, 1e-9]))
-    return {"x0": x0, "T": T, "n": n, "grid": grid, "gs": gs, "tol": tol, "event": ev, "direction": direction, "xtol": xtol}
+    return {"x0": x0, "T": T, "n": n, "grid": grid, "gs": gs, "tol": tol, "atol": atol, "event": ev, "direction": direction, "xtol": xtol}
 
 
 def _grid(c):
@@ -208,7 +210,7 @@ def eval_diff(H, name, kind, order, c, ctx, soft):
     if kind == "fixed":
         integ = RungeKutta(order=order)
     else:
-        integ = AdaptiveRK(order=order, rtol=c["tol"], atol=c["tol"])
+        integ = AdaptiveRK(order=order, rtol=c["tol"], atol=c.get("atol", c["tol"]))
     kw = {}
     variant = "%s:event-%s" % (name, "off" if c["event"] == "off" else "on:dir%+d" % c["direction"])
     if c["event"] != "off":
@@ -250,7 +252,8 @@ def eval_diff(H, name, kind, order, c, ctx, soft):
         worst = max(d, dd)
         if worst <= strict:
             return
-        if kind == "adaptive" and worst <= 50 * (c["tol"] * scale + c["tol"]):
+        tl = max(c["tol"], c.get("atol", c["tol"]))
+        if kind == "adaptive" and worst <= 50 * (tl * scale + tl):
             soft.setdefault(variant, [0, 0, payload, worst])[0] += 1
             return
         ctx.fail("trajectory-differs:" + variant + (":derivatives" if dd > d else ""), payload,
@@ -263,7 +266,8 @@ def eval_diff(H, name, kind, order, c, ctx, soft):
         dx = float(np.max(np.abs(Xa[-1] - Xb[-1])))
         if dt <= tt and dx <= fmax * tt + strict:
             return
-        if kind == "adaptive" and dt <= tt + 50 * c["tol"] and dx <= fmax * (tt + 50 * c["tol"]) + 50 * (c["tol"] * scale + c["tol"]):
+        tl = max(c["tol"], c.get("atol", c["tol"]))
+        if kind == "adaptive" and dt <= tt + 50 * tl and dx <= fmax * (tt + 50 * tl) + 50 * (tl * scale + tl):
             soft.setdefault(variant, [0, 0, payload, max(dt, dx)])[0] += 1
             return
         ctx.fail("event-result-differs:" + variant, payload,
